@@ -599,14 +599,23 @@ def reverse_rule(tree, name):
 
 def forward_slots(tree):
     """slot index used by nonlinear_solve (forward) and nonlinear_solve_b (reverse) in param_index_update(objective.p, k, designParams)"""
-    out = []
-    for name in ('nonlinear_solve', 'nonlinear_solve_b'):
+    def slots_in(name):
         fn = find_func(tree, name)
-        ks = [n.args[1].value for n in ast.walk(fn) if isinstance(n, ast.Call) and callee_name(n.func) == 'param_index_update'
-              and len(n.args) == 3 and isinstance(n.args[1], ast.Constant)]
-        if len(ks) != 1:
-            raise ExtractError('%s: expected exactly one param_index_update with a literal slot' % name)
-        out.append(ks[0])
+        return [n.args[1].value for n in ast.walk(fn) if isinstance(n, ast.Call) and callee_name(n.func) == 'param_index_update'
+                and len(n.args) == 3 and isinstance(n.args[1], ast.Constant)]
+    out = []
+    ks = slots_in('nonlinear_solve')
+    if len(ks) != 1:
+        raise ExtractError('nonlinear_solve: expected exactly one param_index_update with a literal slot')
+    out.append(ks[0])
+    # reverse pass: the slot the design argument occupies in the parameters the reverse rule establishes -- built in the rule itself (param_index_update
+    # on objective.p) or, when the rule re-establishes the Params saved by the forward rule (since /repo 42a60d0), where the forward rule builds them
+    ks = slots_in('nonlinear_solve_b')
+    if not ks:
+        ks = slots_in('nonlinear_solve_f')
+    if len(ks) != 1:
+        raise ExtractError('nonlinear_solve_b / nonlinear_solve_f: expected exactly one param_index_update with a literal slot')
+    out.append(ks[0])
     return out
 
 
@@ -920,6 +929,33 @@ def equation_solve_assigns_p(repo):
     return bool(state['called_ok']) and not state['bad']
 
 
+def forward_rule_saves(tree, name, primal):
+    """what the forward rule <name>(obj, settings, guess, arg) saves besides the solution, in the restore_kind vocabulary:  body `Uu = <primal>(obj, settings, guess, arg);
+    return Uu, (Uu, X)` with X = arg -> RestoreSaved (the argument itself); X = param_index_update(obj.p, K, arg) -> RestoreSlot K (objective.p as the primal left it,
+    slot K replaced by the argument); anything else -> RestoreNone (additive, C07)"""
+    fn = find_func(tree, name)
+    ps = [a.arg for a in fn.args.args]
+    body = [s for s in fn.body if not (isinstance(s, ast.Expr) and isinstance(s.value, ast.Constant))]
+    if len(ps) != 4 or len(body) != 2 or not isinstance(body[0], ast.Assign) or not isinstance(body[1], ast.Return):
+        return 'RestoreNone'
+    a, r = body
+    if not (len(a.targets) == 1 and isinstance(a.targets[0], ast.Name) and isinstance(a.value, ast.Call) and _name(a.value.func, primal)
+            and not a.value.keywords and len(a.value.args) == 4 and all(_name(x, p) for x, p in zip(a.value.args, ps))):
+        return 'RestoreNone'
+    u = a.targets[0].id
+    rv = r.value
+    if not (isinstance(rv, ast.Tuple) and len(rv.elts) == 2 and _name(rv.elts[0], u) and isinstance(rv.elts[1], ast.Tuple) and len(rv.elts[1].elts) == 2
+            and _name(rv.elts[1].elts[0], u)):
+        return 'RestoreNone'
+    x = rv.elts[1].elts[1]
+    if _name(x, ps[3]):
+        return 'RestoreSaved'
+    if (isinstance(x, ast.Call) and callee_name(x.func) == 'param_index_update' and len(x.args) == 3 and not x.keywords and _is_obj_attr(x.args[0], ps[0], 'p')
+            and isinstance(x.args[1], ast.Constant) and isinstance(x.args[1].value, int) and _name(x.args[2], ps[3])):
+        return 'RestoreSlot %d' % x.args[1].value
+    return 'RestoreNone'
+
+
 def defvjp_pairs(tree):
     """top-level <primal>.defvjp(<fwd>, <bwd>) statements"""
     out = []
@@ -952,7 +988,11 @@ def rule_semantics_text(repo, tree):
             'Definition primal_params_nonlinear_solve : restore_kind := %s.\n'
             'Definition primal_params_nonlinear_solve_with_state : restore_kind := %s.\n'
             'Definition equation_solve_assigns_objective_p : bool := %s.\n'
+            '(* what each forward rule saves besides the solution (RestoreSaved: its argument; RestoreSlot k: objective.p as the primal left it with slot k := argument) *)\n'
+            'Definition fwd_saves_nonlinear_solve : restore_kind := %s.\n'
+            'Definition fwd_saves_nonlinear_solve_with_state : restore_kind := %s.\n'
             % (clist(['\n   ' + r for r in rows]), cbool(hv_ok), cbool(gx_ok), restore_kind(tree, 'nonlinear_solve_b'),
                restore_kind(tree, 'nonlinear_solve_with_state_b'), cbool(forward_rule_ok(tree, 'nonlinear_solve_f', 'nonlinear_solve')),
                cbool(forward_rule_ok(tree, 'nonlinear_solve_with_state_f', 'nonlinear_solve_with_state')), cbool(reg),
-               primal_params_kind(tree, 'nonlinear_solve'), primal_params_kind(tree, 'nonlinear_solve_with_state'), cbool(equation_solve_assigns_p(repo))))
+               primal_params_kind(tree, 'nonlinear_solve'), primal_params_kind(tree, 'nonlinear_solve_with_state'), cbool(equation_solve_assigns_p(repo)),
+               forward_rule_saves(tree, 'nonlinear_solve_f', 'nonlinear_solve'), forward_rule_saves(tree, 'nonlinear_solve_with_state_f', 'nonlinear_solve_with_state')))
